@@ -288,8 +288,23 @@ Definition build_join_cond (sc : scope) (conds : list expr) : expr :=
   end.
 
 (** ** subqueries *)
+(** what a subquery reads from: a table or an earlier subquery by name, or a join of two of them
+    (the condition is kept both as the expression built by [build_join_cond] and as written) *)
+Inductive ssource :=
+| SrcName (n : str)
+| SrcJoin (unique : bool) (left : str) (left_outer : bool) (right : str) (cond : expr) (cond_sql : list piece).
+
+Definition render_source (s : ssource) : list piece :=
+  match s with
+  | SrcName n => [PIdent n]
+  | SrcJoin unique l outer r _ cond =>
+    (if unique then lit "(SELECT DISTINCT * FROM " else []) ++ [PIdent l] ++ (if unique then lit ")" else [])
+    ++ lit " AS ""$left""" ++ (if outer then lit " LEFT JOIN " else lit " JOIN ") ++ [PIdent r]
+    ++ lit " AS ""$right"" ON " ++ cond
+  end.
+
 Record subq := mkSubq
-  { sq_name : str; sq_source : list piece; sq_op : option operator;
+  { sq_name : str; sq_source : ssource; sq_op : option operator;
     sq_sort : option (list sort_term); sq_take : option expr }.
 
 Definition subquery_name (i : nat) : str := L "__subquery" ++ nat_to_dec i.
@@ -300,8 +315,8 @@ Definition last_opt {A} (l : list A) : option A := match rev l with x :: _ => So
 Definition chain_subquery (dst : list subq) (dst_start : nat) (src : ident) : subq :=
   let source :=
     if Nat.ltb dst_start (length dst)
-    then match last_opt dst with Some s => [PIdent (sq_name s)] | None => [] end
-    else [PIdent (iname src)] in
+    then match last_opt dst with Some s => SrcName (sq_name s) | None => SrcName [] end
+    else SrcName (iname src) in
   mkSubq (subquery_name (length dst)) source None None None.
 
 Definition set_last (dst : list subq) (f : subq -> subq) : list subq :=
@@ -358,14 +373,13 @@ Fixpoint split_op (sc : scope) (dst_start : nat) (src : ident) (dst : list subq)
     let right_name := match last_opt dst1 with Some s => sq_name s | None => [] end in
     let flavor_name := match flavor with Some f => iname f | None => w_innerunique end in
     let unique := str_eqb flavor_name w_innerunique in
-    let left_src := if left_from_sub then [PIdent left_name] else [PIdent (iname src)] in
-    do kw <- (if str_eqb flavor_name w_inner || unique then Ok (lit " JOIN ")
-              else if str_eqb flavor_name w_leftouter then Ok (lit " LEFT JOIN ")
-              else Err (match flavor with Some f => span_start (ispan f) | None => None end));
-    do cond <- wexpr (mkCtx sc ModeJoin) (build_join_cond sc conds);
-    let source :=
-      (if unique then lit "(SELECT DISTINCT * FROM " else []) ++ left_src ++ (if unique then lit ")" else [])
-      ++ lit " AS ""$left""" ++ kw ++ [PIdent right_name] ++ lit " AS ""$right"" ON " ++ cond in
+    let left_src := if left_from_sub then left_name else iname src in
+    do outer <- (if str_eqb flavor_name w_inner || unique then Ok false
+                 else if str_eqb flavor_name w_leftouter then Ok true
+                 else Err (match flavor with Some f => span_start (ispan f) | None => None end));
+    let cond_expr := build_join_cond sc conds in
+    do cond <- wexpr (mkCtx sc ModeJoin) cond_expr;
+    let source := SrcJoin unique left_src outer right_name cond_expr cond in
     Ok (dst1 ++ [mkSubq (subquery_name (length dst1)) source None None None])
   | _ =>
     Ok (dst ++ [mkSubq (sq_name fresh) (sq_source fresh) (Some o) None None])
@@ -408,7 +422,7 @@ Definition write_sort (c : ctx) (terms : list sort_term) : res (list piece) :=
   Ok (lit " ORDER BY " ++ join_pieces (lit ", ") ts).
 
 Definition write_subq (c : ctx) (s : subq) : res (list piece) :=
-  let src := sq_source s in
+  let src := render_source (sq_source s) in
   do body <-
     match sq_op s with
     | None | Some (OAs _ _ _) => Ok (lit "SELECT * FROM " ++ src)
